@@ -76,6 +76,13 @@ IMPL_6 = ["a=b", "a=0", "a=a+1", "zf=a==b", "@[sp+4]=a", "a=@[sp+4]"]
 IMPL_4 = ["a=b", "a=0", "zf=a==b", "@[sp+4]=a"]
 IMPL_3 = ["a=0", "zf=a==b", "@[sp+4]=a"]
 IMPL_2 = ["a=b", "zf=a==b"]
+# multi-leaf head IRDst (nested conditional naming one successor on several leaves / three-way dispatch)
+NEST_2 = ["a=0", "b=a"]
+NEST_1 = ["a=0"]
+NEST_ZF = ["a=0", "zf=a==b"]
+NESTED_Q = {"pairs": [["a", "b"], ["zf", "a"]], "elements": ["a"]}
+NESTED_T = {"pairs": [["a", "b"], ["zf", "a"], ["@[sp+4]", "b"], ["a", "a"]], "elements": ["a", "@[sp+4]"]}
+NESTED_T4 = {"pairs": [["a", "b"], ["b", "zf"]], "elements": ["a"]}
 CONDS_ALL = ["a", "zf", "a==b", "a<u2", "@[sp+4]"]
 CONDS_4 = ["a", "zf", "a<u2", "@[sp+4]"]
 CONDS_ONE = ["a"]
@@ -85,9 +92,10 @@ PLAN_Q = [
     ("explicit", 1, 2, ALPHA_WIDE, CONDS_ONE),
     ("explicit", 2, 1, ALPHA_WIDE, CONDS_ONE),
     ("explicit", 2, 2, ALPHA_4, CONDS_ONE),
-    ("explicit", 3, 1, ALPHA_5, CONDS_ONE),
+    ("explicit", 3, 1, ALPHA_4, CONDS_ONE),
     ("implicit", 1, 2, IMPL_4, CONDS_ONE),
-    ("implicit", 3, 1, IMPL_3, CONDS_4),
+    ("implicit", 3, 1, IMPL_3, ["@[sp+4]"]),
+    ("implicit", 3, 1, NEST_1, ["a"], NESTED_Q),
 ]
 PLAN_T = [
     ("explicit", 1, 3, ALPHA_14, CONDS_ONE),
@@ -103,6 +111,9 @@ PLAN_T = [
     ("implicit", 3, 1, IMPL_6, ["a", "@[sp+4]"]),
     ("implicit", 3, 2, IMPL_2, ["zf"]),
     ("implicit", 4, 1, IMPL_2, ["zf"]),
+    ("implicit", 3, 1, NEST_2, ["a"], NESTED_Q),
+    ("implicit", 3, 1, NEST_ZF, ["a"], NESTED_T),
+    ("implicit", 4, 0, NEST_2, ["a"], NESTED_T4),
 ]
 
 VALS = [0, 1, 2, 0xFFFFFFFF]
@@ -390,14 +401,48 @@ def element_expr(A, name):
     return {"a": A.a, "b": A.b, "r": A.r, "@[sp+4]": m.ExprMem(A.sp + m.ExprInt(4, 32), 32)}[name]
 
 
-def check_graph(mode, n, shape_idx, body_idx, cond_idx, alphabet, conds, only=None):
-    """Return (violations, info). `only` = (block, line, element name) restricts to one target (replay)."""
+def nested_dst(g, dst0):
+    """IRDst expression of a multi-leaf head: dst0 = [form, c1, c2, A, B, C] (block indexes A, B, C)
+         form "tail": c1 ? A : (c2 ? B : C)        form "front": c1 ? (c2 ? A : B) : C"""
+    m = irgen.E()
+    form, c1, c2, ta, tb, tc = dst0
+    (_, e1), (_, e2) = irgen.cond_alphabet(g.arch, [c1, c2])
+    la, lb, lc = [m.ExprLoc(g.locs[t], 32) for t in (ta, tb, tc)]
+    if form == "tail":
+        return m.ExprCond(e1, la, m.ExprCond(e2, lb, lc))
+    return m.ExprCond(e1, m.ExprCond(e2, la, lb), lc)
+
+
+def nested_text(dst0):
+    form, c1, c2, ta, tb, tc = dst0
+    if form == "tail":
+        return "%s ? %d : (%s ? %d : %d)" % (c1, ta, c2, tb, tc)
+    return "%s ? (%s ? %d : %d) : %d" % (c1, c2, ta, tb, tc)
+
+
+def check_graph(mode, n, shape_idx, body_idx, cond_idx, alphabet, conds, only=None, dst0=None, elements=None):
+    """Return (violations, info). `only` = (block, line, element name, order) restricts to one target (replay).
+    dst0: the head block's IRDst is replaced by a nested conditional (see nested_dst) - several leaves may name the same
+    successor; elements: target elements (default ELEMENTS)."""
     from miasm.analysis.depgraph import DependencyGraph
     shape = irgen.shapes(n)[shape_idx]
     g = irgen.build(shape, body_idx, cond_idx, alphabet, conds)
     A = g.arch
     it = interp()
     desc = irgen.describe(shape, body_idx, cond_idx, alphabet, conds)
+    if dst0 is not None:
+        from miasm.ir.ir import IRBlock, AssignBlock
+        head = g.ircfg.blocks[g.locs[0]]
+        newhead = IRBlock(g.loc_db, g.locs[0], list(head.assignblks[:-1]) + [AssignBlock({A.IRDst: nested_dst(g, dst0)})])
+        ircfg = g.lifter.new_ircfg()
+        for i, lk in enumerate(g.locs):
+            ircfg.add_irblock(newhead if i == 0 else g.ircfg.blocks[lk])
+        g.ircfg = ircfg
+        shape = (tuple(sorted(set(dst0[3:]))),) + tuple(shape[1:])
+        parts = desc.split(" | ")
+        parts[0] = parts[0].split(" -> ")[0] + " -> " + nested_text(dst0)
+        desc = " | ".join(parts)
+    elements = list(elements) if elements is not None else ELEMENTS
     implicit = mode == "implicit"
     info = {"targets": 0, "solutions": 0, "nontrivial": 0, "state_evals": 0, "empty_slices": 0, "emul_raised": 0,
             "unsat_solutions": 0, "sat_solutions": 0, "models_replayed": 0, "solutions_all_follow": 0, "solutions_none_follow": 0,
@@ -448,6 +493,9 @@ def check_graph(mode, n, shape_idx, body_idx, cond_idx, alphabet, conds, only=No
         info["targets"] += 1
         case = {"mode": mode, "n": n, "shape": shape_idx, "bodies": body_idx, "conds": cond_idx, "alphabet": alphabet,
                 "condnames": conds, "target": [bi, line_nb, ename], "order": policy}
+        if dst0 is not None:
+            case["dst0"] = list(dst0)
+            case["elements"] = elements
         kind = features(body_idx, alphabet, ename)
         tdesc = "%s; target %s before line %d of B%d (%s mode%s)" % (desc, ename, line_nb, bi, mode, ", pending states taken %s-history first" % policy if len(policies) > 1 else "")
         try:
@@ -607,7 +655,7 @@ def check_graph(mode, n, shape_idx, body_idx, cond_idx, alphabet, conds, only=No
     for bi in range(n):
         blk = g.ircfg.blocks[g.locs[bi]]
         for line_nb in range(len(blk)):
-            for ename in ELEMENTS:
+            for ename in elements:
                 for policy in policies:
                     if only is not None and (bi, line_nb, ename, policy) != tuple(only):
                         continue
@@ -644,11 +692,29 @@ def _lines_text(lines):
 
 # ------------------------------------------------------------------ sharding
 
+def nested_variants(n, nested):
+    """Every multi-leaf head of the family: both forms x condition pairs x target triples over the blocks 1..n-1 that are
+    not all equal (a duplicated successor, or - with >= 3 other blocks - a three-way dispatch)."""
+    out = []
+    for form in ("tail", "front"):
+        for c1, c2 in nested["pairs"]:
+            for t in itertools.product(range(1, n), repeat=3):
+                if len(set(t)) > 1:
+                    out.append([form, c1, c2] + list(t))
+    return out
+
+
 def _unit(args):
-    mode, n, maxlen, alphabet, conds, si, b0 = args
+    mode, n, maxlen, alphabet, conds, si, b0 = args[:7]
+    nested = args[7] if len(args) > 7 else None
     shape = irgen.shapes(n)[si]
     bl = irgen.bodies(alphabet, maxlen)
     ncond = [len(conds) if len(s) == 2 else 1 for s in shape]
+    if nested:
+        ncond[0] = 1
+        variants = nested_variants(n, nested)
+    else:
+        variants = [None]
     cnt = 0
     tot = {}
     vs = []
@@ -658,19 +724,25 @@ def _unit(args):
     for rest in itertools.product(bl, repeat=n - 1):
         body_idx = (bl[b0],) + rest
         for cond_idx in itertools.product(*[range(k) for k in ncond]):
-            cnt += 1
-            v, info = check_graph(mode, n, si, body_idx, cond_idx, alphabet, conds)
-            for k, x in info.items():
-                if k.startswith("max_"):
-                    tot[k] = max(tot.get(k, 0), x)
+            for dst0 in variants:
+                cnt += 1
+                if dst0 is None:
+                    v, info = check_graph(mode, n, si, body_idx, cond_idx, alphabet, conds)
                 else:
-                    tot[k] = tot.get(k, 0) + x
-            for x in v:
-                sigs[x["sig"]] = sigs.get(x["sig"], 0) + 1
-                if sigs[x["sig"]] <= 2:
-                    vs.append(x)
-            if sample is None and info["nontrivial"] and sum(len(b) for b in body_idx) >= 2:
-                sample = "%s: %s" % (mode, irgen.describe(shape, body_idx, cond_idx, alphabet, conds))
+                    v, info = check_graph(mode, n, si, body_idx, cond_idx, alphabet, conds, dst0=dst0, elements=nested["elements"])
+                    tot["graphs_with_multi_leaf_irdst"] = tot.get("graphs_with_multi_leaf_irdst", 0) + 1
+                for k, x in info.items():
+                    if k.startswith("max_"):
+                        tot[k] = max(tot.get(k, 0), x)
+                    else:
+                        tot[k] = tot.get(k, 0) + x
+                for x in v:
+                    sigs[x["sig"]] = sigs.get(x["sig"], 0) + 1
+                    if sigs[x["sig"]] <= 2:
+                        vs.append(x)
+                if sample is None and info["nontrivial"] and (dst0 is not None or sum(len(b) for b in body_idx) >= 2):
+                    sample = "%s: %s%s" % (mode, irgen.describe(shape, body_idx, cond_idx, alphabet, conds),
+                                           " [head IRDst = %s]" % nested_text(dst0) if dst0 else "")
     return cnt, tot, vs, sample, sigs, mode
 
 
@@ -713,19 +785,26 @@ NSHARDS = 32
 def make_shards(plan):
     """Deterministic balanced packing (largest unit first into the lightest shard)."""
     units = []
-    for mode, n, maxlen, alphabet, conds in plan:
+    for entry in plan:
+        mode, n, maxlen, alphabet, conds = entry[:5]
+        nested = entry[5] if len(entry) > 5 else None
         nb = len(irgen.bodies(alphabet, maxlen))
         for si, shape in enumerate(irgen.shapes(n)):
             if not irgen.shape_is_loop_free(shape):
                 continue
+            if nested and len(shape[0]) != 2:
+                continue        # the head's successors are replaced: one base shape per distinct rest of the graph
             ng = nb ** (n - 1)
-            for s in shape:
+            for s in shape[1:] if nested else shape:
                 if len(s) == 2:
                     ng *= len(conds)
             paths = 1 + sum(1 for s in shape if len(s) == 2)
             w = ng * n * paths * (3 if mode == "implicit" else 1)
+            if nested:
+                w = w * len(nested_variants(n, nested)) * len(nested["elements"]) // len(ELEMENTS)
             for b0 in range(nb):
-                units.append((w * (1 + min(2, len(irgen.bodies(alphabet, maxlen)[b0]))), len(units), (mode, n, maxlen, alphabet, conds, si, b0)))
+                u = (mode, n, maxlen, alphabet, conds, si, b0) + ((nested,) if nested else ())
+                units.append((w * (1 + min(2, len(irgen.bodies(alphabet, maxlen)[b0]))), len(units), u))
     units.sort(key=lambda u: (-u[0], u[1]))
     bins = [[0, i, []] for i in range(NSHARDS)]
     for w, _, u in units:
@@ -788,6 +867,7 @@ def run(ctx):
         "distinct_nontrivial": ex.get("nontrivial", 0) + im.get("nontrivial", 0),
         "graphs_explicit": graphs["explicit"],
         "graphs_implicit": graphs["implicit"],
+        "graphs_with_multi_leaf_head_irdst": im.get("graphs_with_multi_leaf_irdst", 0),
         "targets_x_orders": ex.get("targets", 0) + im.get("targets", 0),
         "graphs_with_a_join_run_in_both_pending_orders": ex.get("graphs_with_join", 0) + im.get("graphs_with_join", 0),
         "explicit_solutions": ex.get("solutions", 0),
@@ -821,4 +901,5 @@ def run(ctx):
 def replay(case):
     _preimport(True)
     return check_graph(case["mode"], case["n"], case["shape"], tuple(tuple(b) for b in case["bodies"]), tuple(case["conds"]),
-                       list(case["alphabet"]), list(case["condnames"]), only=list(case["target"]) + [case.get("order", "min")])[0]
+                       list(case["alphabet"]), list(case["condnames"]), only=list(case["target"]) + [case.get("order", "min")],
+                       dst0=case.get("dst0"), elements=case.get("elements"))[0]
